@@ -282,8 +282,9 @@ def owners(div):
     own = set()
     for key in keys:
         own |= owners_key(fn, key, exps.get(key), obs)
-    if isinstance(div.get("also"), dict):   # an allocation-count difference seen earlier in the same script
-        own |= owners_key((div["also"].get("call") or {}).get("fn", ""), "nalloc", None, {})
+    if isinstance(div.get("also"), dict):   # an allocation / descriptor count difference seen earlier in the same script
+        for k in div["also"].get("keys") or ["nalloc"]:
+            own |= owners_key((div["also"].get("call") or {}).get("fn", ""), k, None, {})
     return own or {"C14"}
 
 
@@ -361,6 +362,10 @@ def owners_key(fn, key, exp, obs):
         return {"C13"}
     if key in ("cexec", "forks"):
         return {"C04"}
+    if key == "probe":
+        # the state the previous call left behind is not the one its contract dictates (C14), and it is that call's own
+        # property that says what the state should have been
+        return {"C14"} | STATE_OWNER.get(fn, set())
     if key == "fchild":
         # what the forked child sees of start / pid / wait is the handle life cycle; which descriptors it is left
         # with decides whether the parent ever sees end of stream (C02) and is the launch contract's "only the exit handle" (C11)
